@@ -195,10 +195,22 @@ def real_tiles_task(args):
         if lat.min() < h[0] - 1e-9 or lat.max() > h[1] + 1e-9 or (h[3] < TWOPI and off + w > h[3] + 1e-9):
             out.setdefault("hull_excess", []).append(p)
     chunkers = {}
+    out["raised"] = []
     for ri, reg in enumerate(regions):
+        try:
+            if reg[0] == "box":
+                f = _latlon_tile_filter(*reg[1:5])
+            else:
+                key = (reg[1], reg[2], tuple(map(tuple, reg[3])))
+                if key not in chunkers:
+                    chunkers[key] = ChunkedPlateCarreeSampler(FakeChunked(reg[1], reg[2], reg[3]), planetary=True)
+                f = chunkers[key].filter(reg[4])
+        except Exception as e:  # noqa   (the filter factory of the code under test refused a valid region)
+            if len(out["raised"]) < 3:
+                out["raised"].append({"region": repr(reg[:3] + reg[4:5]) if reg[0] == "chunk" else repr(reg), "error": repr(e)})
+            continue
         if reg[0] == "box":
             _, lo, hi, la, lb = reg
-            f = _latlon_tile_filter(lo, hi, la, lb)
             R = (la, lb, lo % TWOPI, min(hi - lo, TWOPI))
 
             def member(lon, lat, lo=lo, hi=hi, la=la, lb=lb):
@@ -206,10 +218,6 @@ def real_tiles_task(args):
                 return (lat > la + 1e-12) & (lat < lb - 1e-12) & (d > 1e-12) & (d < min(hi - lo, TWOPI) - 1e-12)
         else:
             _, W, H, specs, ich = reg
-            key = (W, H, tuple(map(tuple, specs)))
-            if key not in chunkers:
-                chunkers[key] = ChunkedPlateCarreeSampler(FakeChunked(W, H, specs), planetary=True)
-            f = chunkers[key].filter(ich)
             x0, y0, cw, ch = specs[ich]
             R = (math.pi / 2 - math.pi * (y0 + ch) / H, math.pi / 2 - math.pi * y0 / H,
                  (TWOPI * x0 / W - math.pi) % TWOPI, TWOPI * cw / W)
@@ -651,7 +659,12 @@ def _dispatch(task):
             return kind, chunk_layer_task(arg)
     except Exception as e:  # noqa
         import traceback
-        return "crash", {"kind": kind, "arg": repr(arg)[:300], "trace": traceback.format_exc()}
+        tb = traceback.extract_tb(e.__traceback__)
+        root = os.path.realpath(os.environ.get("VERIF_REPO", "/repo"))
+        in_toasty = bool(tb) and os.path.realpath(tb[-1].filename).startswith(os.path.join(root, "toasty"))
+        where = "%s:%s" % (os.path.basename(tb[-1].filename), tb[-1].name) if tb else "?"
+        return ("raised" if in_toasty else "crash"), {"kind": kind, "arg": repr(arg)[:400], "where": where, "error": repr(e)[:300],
+                                                     "trace": traceback.format_exc()[-1500:]}
     return "crash", {"kind": kind, "trace": "unknown task"}
 
 
@@ -1095,6 +1108,10 @@ def _run(ctx, pool, scratch, quick, rng):
         if kind == "crash":
             crashes.append(r)
             continue
+        if kind == "raised":        # the code under test raised while building / applying a filter or sampling with it
+            ctx.violation("C07:%s:raises" % {"real": "box-or-chunk-filter", "foot": "wcs-filter", "wlayer": "sample-layer-filtered", "clayer": "chunked-sampling"}[r["kind"]],
+                          "toasty raised %s in %s while a filter was built / applied / sampled through (%s task)" % (r["error"], r["where"], r["kind"]), r)
+            continue
         for m in r.get("mut", []):
             ctx.violation("C07:filter-mutates-tile", "a tile filter changed the corners of the tile it was given (%s task): %s" % (kind, str(m)[:300]), {"task": kind, "detail": m})
         if kind == "foot":
@@ -1105,6 +1122,8 @@ def _run(ctx, pool, scratch, quick, rng):
             nreal["pop"] += r["populated"]
             rejected += np.array(r["rejected"])
             ctx.count(r["calls"])
+            for rr in r.get("raised", []):
+                ctx.violation("C07:box-or-chunk-filter:raises", "the filter factory raised %s for the valid region %s" % (rr["error"], rr["region"]), rr)
             if r.get("hull_excess"):
                 ctx.drift("pixel centres of tiles %s leave the lat/lon hull of the tile corners (side condition of NoFalseNegative)" % (r["hull_excess"][:4],))
             for v in r["viol"]:
@@ -1126,8 +1145,6 @@ def _run(ctx, pool, scratch, quick, rng):
             for v in r["viol"]:
                 ctx.violation("C07:chunked-sampling:differs", "sampling all chunks of map %s one after another leaves tile %s different from whole-map sampling in %d pixels: pixel %s whole-map %s chunked %s (map pixel row/col %s)"
                               % (sampled[r["id"]][0], v["tile"], v["pixels"], v["first"], v["whole_map"], v["chunked"], v["map_pixel_row_col"]), {"config": sampled[r["id"]], "detail": v})
-    if crashes:
-        ctx.machinery("worker crashed: %s" % (crashes[0]["trace"],))
     for ri in range(len(regions)):
         if rejected[ri] > 0:
             ctx.distinct(("region", ri))
@@ -1135,6 +1152,7 @@ def _run(ctx, pool, scratch, quick, rng):
     ctx.note("real_tile_exact_pixel_tests", nreal["npix"])
     ctx.note("regions", {"boxes": len(boxes), "chunks": len(uniq_chunk_regions)})
     # ---------------------------------------------------------------- (b) footprints: verdicts and sample sets
+    fps = [d for d in fps if d["id"] in foot_res]
     results = [foot_res[d["id"]] for d in fps]
     nexp = 0
     maxexp = 0.0
@@ -1169,6 +1187,8 @@ def _run(ctx, pool, scratch, quick, rng):
         ctx.sample({"footprint": {k: d[k] for k in ("nx", "ny", "scale", "ra", "dec", "klass")}, "tiles_over_it": r["tiles_seen"],
                     "exposure_px": r["exposure_px"], "deepest_level_in_domain": r.get("n_dom")})
     ctx.exhaustive = False
+    if crashes:
+        ctx.machinery("worker crashed: %s" % (crashes[0]["trace"],))
     ctx.assume("pixel centres of a TOAST tile lie inside the lat/lon hull of its corners (checked for every tile to depth 4 in both coordinate systems; excess reported as drift)")
     ctx.assume("footprint monitor domain: levels at which a tile spans >= %g image pixels (tile pixels at most 4x finer than image pixels, the regime "
                "_image_bounds is written for); a witness pixel must lie >= %.2f px inside the image; footprints keep (pixel size)*tan(latitude) <= 0.02 and an "
